@@ -20,6 +20,8 @@ def main():
         os.chdir(ROOT)
         return subprocess.call([PY, os.path.abspath(__file__)] + sys.argv[1:], env=env)
     sys.path.insert(0, ROOT)
+    if os.environ.get("SYMX_REPO"):
+        sys.path.insert(0, os.environ["SYMX_REPO"])   # analyse a scratch copy of the repository (mutant runs); default is /repo
     import warnings
     warnings.filterwarnings("ignore")
     import io, contextlib
